@@ -422,6 +422,13 @@ def run(ctx: Ctx) -> RuleResult:
         if not missing:
             continue
         reason = UNSUPPORTED.get(q)
+        if reason is None and q not in UNSUPPORTED:
+            # a helper that is only called from build-from-grammar entry points shares their excuse
+            short = q.split('.')[-1]
+            callers = [q2 for q2, node2 in funcs if q2 != q and any(
+                (isinstance(x, ast.Attribute) and x.attr == short) or (isinstance(x, ast.Name) and x.id == short) for x in ast.walk(node2))]
+            if callers and all(UNSUPPORTED.get(c_) for c_ in callers):
+                reason = 'only used by %s' % ', '.join(sorted(callers))
         for nm in missing:
             line = [ln for x, ln in uses if x == nm][0]
             site = '%s (generated line %d) %s' % (_where(spans, line), line, q)
